@@ -56,6 +56,12 @@ func only(p *Profile, kinds map[string]int) *Profile {
 // registration- and schedule-centred mixes of the properties that own those entities, so that
 // the races those mixes reach are also judged against the sequential specification.
 func ProfileForRun(prop string, run int) *Profile {
+	if prop == "C01" && run%4 == 3 {
+		// what a notification or a claim shows of a promise is an observation too: dispatch mix
+		p := ProfileFor("C19")
+		p.Name = "C01/dispatch"
+		return p
+	}
 	if prop == "C18" {
 		// kernel-engine phase of the C18 check: the dispatch-centred mix
 		p := ProfileFor("C19")
@@ -112,6 +118,7 @@ func ProfileFor(prop string) *Profile {
 		p.PReorder = 0.15
 	case "C03":
 		p.PFront = 0.3
+		p.KeyCase = true
 		only(p, map[string]int{"CreatePromise": 30, "CreatePromiseAndTask": 10, "CompletePromise": 40, "ReadPromise": 5})
 		p.Promises = []string{"p0"}
 		p.PDup = 0.45
@@ -210,6 +217,9 @@ func ProfileFor(prop string) *Profile {
 	case "C15":
 		p.PFront = 1
 		p.PSynth = 0.3
+		// ids a client library escapes in a path ('+' stays, '/' and ':' do not)
+		p.Promises = []string{"p0", "p1", "p2", "a+b/c", "x:y+z"}
+		p.Schedules = []string{"s0", "s1", "s+1/2"}
 		p.PTiny = 0.35
 		p.PFaultRun = 0.6
 		p.PShutdown = 0.15
